@@ -34,6 +34,7 @@ def handlers : List (String × (Json → Except String Json)) := [
   ("C12.result", Qv.Drv.C12.result),
   ("C02.dims", Qv.Drv.C02.dims),
   ("C02.matmul", Qv.Drv.C02.matmul),
+  ("C02.matrix_element", Qv.Drv.C02.matrixElement),
   ("C07.super", Qv.Drv.C07.superJ),
   ("C07.liouvillian", Qv.Drv.C07.liouvJ),
   ("C08.shuffle", Qv.Drv.C08.shuffleJ),
